@@ -97,8 +97,15 @@ func decStrict(s string) (int64, bool) {
 
 func intStrict(s string) (int64, bool) {
 	if strings.HasPrefix(s, "-") {
-		n, ok := decStrict(s[1:])
-		return -n, ok
+		if n, ok := decStrict(s[1:]); ok {
+			return -n, true
+		}
+		// -2^63: the magnitude alone does not fit
+		if len(s) > 1 && strings.Trim(s[1:], "0123456789") == "" {
+			n, err := strconv.ParseInt(s, 10, 64)
+			return n, err == nil
+		}
+		return 0, false
 	}
 	return decStrict(s)
 }
